@@ -1,10 +1,10 @@
 use super::{
-    stringify::{stringify_reference, DisplaceData},
+    stringify::{precedence, stringify_reference, DisplaceData},
     ArrayNode, Node, Reference,
 };
 use crate::{
     constants::{LAST_COLUMN, LAST_ROW},
-    expressions::token::OpUnary,
+    expressions::token::{OpSum, OpUnary},
     language::Language,
     locale::Locale,
 };
@@ -106,6 +106,22 @@ pub(crate) fn to_string_array_node(
         ArrayNode::String(value) => format!("\"{value}\""),
         ArrayNode::Error(kind) => kind.to_localized_error_string(language),
         ArrayNode::Empty => "0".to_string(),
+    }
+}
+
+/// Prints `node` where the parser reads an operand of grammar level `level` (see `stringify::precedence`)
+fn to_string_moved_operand(
+    node: &Node,
+    level: u8,
+    move_context: &MoveContext,
+    locale: &Locale,
+    language: &Language,
+) -> String {
+    let s = to_string_moved(node, move_context, locale, language);
+    if precedence(node) < level {
+        format!("({s})")
+    } else {
+        s
     }
 }
 
@@ -378,59 +394,45 @@ fn to_string_moved(
         }
         OpRangeKind { left, right } => format!(
             "{}:{}",
-            to_string_moved(left, move_context, locale, language),
-            to_string_moved(right, move_context, locale, language),
+            to_string_moved_operand(left, 8, move_context, locale, language),
+            to_string_moved_operand(right, 9, move_context, locale, language),
         ),
         OpConcatenateKind { left, right } => format!(
             "{}&{}",
-            to_string_moved(left, move_context, locale, language),
-            to_string_moved(right, move_context, locale, language),
+            to_string_moved_operand(left, 2, move_context, locale, language),
+            to_string_moved_operand(right, 3, move_context, locale, language),
         ),
-        OpSumKind { kind, left, right } => format!(
-            "{}{}{}",
-            to_string_moved(left, move_context, locale, language),
-            kind,
-            to_string_moved(right, move_context, locale, language),
-        ),
+        OpSumKind { kind, left, right } => {
+            // `a+(b+c)` is printed as `a+b+c`, but `a-(b+c)` keeps its parentheses
+            let right_level = if matches!(kind, OpSum::Minus) { 4 } else { 3 };
+            format!(
+                "{}{}{}",
+                to_string_moved_operand(left, 3, move_context, locale, language),
+                kind,
+                to_string_moved_operand(right, right_level, move_context, locale, language),
+            )
+        }
         OpProductKind { kind, left, right } => {
-            let x = match **left {
-                OpSumKind { .. } => format!(
+            // a signed right operand is always wrapped: `a*(-b)`
+            let y = if matches!(**right, UnaryKind { .. }) {
+                format!(
                     "({})",
-                    to_string_moved(left, move_context, locale, language)
-                ),
-                CompareKind { .. } => format!(
-                    "({})",
-                    to_string_moved(left, move_context, locale, language)
-                ),
-                _ => to_string_moved(left, move_context, locale, language),
+                    to_string_moved(right, move_context, locale, language)
+                )
+            } else {
+                to_string_moved_operand(right, 5, move_context, locale, language)
             };
-            let y = match **right {
-                OpSumKind { .. } => format!(
-                    "({})",
-                    to_string_moved(right, move_context, locale, language)
-                ),
-                CompareKind { .. } => format!(
-                    "({})",
-                    to_string_moved(right, move_context, locale, language)
-                ),
-                OpProductKind { .. } => format!(
-                    "({})",
-                    to_string_moved(right, move_context, locale, language)
-                ),
-                UnaryKind { .. } => {
-                    format!(
-                        "({})",
-                        to_string_moved(right, move_context, locale, language)
-                    )
-                }
-                _ => to_string_moved(right, move_context, locale, language),
-            };
-            format!("{x}{kind}{y}")
+            format!(
+                "{}{}{}",
+                to_string_moved_operand(left, 4, move_context, locale, language),
+                kind,
+                y
+            )
         }
         OpPowerKind { left, right } => format!(
             "{}^{}",
-            to_string_moved(left, move_context, locale, language),
-            to_string_moved(right, move_context, locale, language),
+            to_string_moved_operand(left, 5, move_context, locale, language),
+            to_string_moved_operand(right, 6, move_context, locale, language),
         ),
         NamedFunctionKind { name, args, id: _ } => {
             move_function(name, args, move_context, locale, language)
@@ -482,18 +484,19 @@ fn to_string_moved(
         NamedVariableKind { name, id: _ } => name.to_string(),
         CompareKind { kind, left, right } => format!(
             "{}{}{}",
-            to_string_moved(left, move_context, locale, language),
+            to_string_moved_operand(left, 1, move_context, locale, language),
             kind,
-            to_string_moved(right, move_context, locale, language),
+            to_string_moved_operand(right, 2, move_context, locale, language),
         ),
         UnaryKind { kind, right } => match kind {
+            // after the signs the parser reads a range-level operand
             OpUnary::Minus => format!(
                 "-{}",
-                to_string_moved(right, move_context, locale, language)
+                to_string_moved_operand(right, 7, move_context, locale, language)
             ),
             OpUnary::Percentage => format!(
                 "{}%",
-                to_string_moved(right, move_context, locale, language)
+                to_string_moved_operand(right, 6, move_context, locale, language)
             ),
         },
         ErrorKind(kind) => kind.to_localized_error_string(language),
@@ -505,13 +508,13 @@ fn to_string_moved(
         } => {
             format!(
                 "@{}",
-                to_string_moved(child, move_context, locale, language)
+                to_string_moved_operand(child, 9, move_context, locale, language)
             )
         }
         SpillRangeOperator { child } => {
             format!(
                 "{}#",
-                to_string_moved(child, move_context, locale, language)
+                to_string_moved_operand(child, 9, move_context, locale, language)
             )
         }
         LambdaDefKind { parameters, body } => {
